@@ -45,7 +45,7 @@ typedef struct {
     size_t mit_freed, modis_calls, elig_count, fetchsub_calls, hits, tellif_calls, regexec_calls; int modis_mask;
     size_t regcomp_calls, mapnew_calls, subsdtor_calls; const void *map_key; const char *freed_topic;
     size_t tellsubs_calls; const void *route_key, *route_to, *route_sender, *route_data; const char *route_topic; bool route_system;
-    size_t visited, visited_user, mapfree_calls, pollcreate_calls, fscreate_calls;
+    size_t visited, visited_user, mapfree_calls, pollcreate_calls, fscreate_calls, polldestroy_calls, ctxsrc_dereg_at_polldestroy;
     bool quit_at_iter; uint8_t quitcode_at_iter;
     size_t eval_passes, flush_calls, sys_at_flush, pollinit_calls, pollclear_calls, tick_poll_calls, tick_reads, thpool_free_calls; int tick_poll_flag;
     ev_src_t *newevt_src; size_t tls_set_calls, ctxnew_calls; size_t mapclear_calls, fd_opened, epoll_calls, pollrm_calls; int epoll_op, epoll_fd;
@@ -60,6 +60,7 @@ bool g_alloc_fails, g_pipe_full; ps_priv_t *g_msg; ps_priv_t *g_pmsg; size_t g_P
 int g_regtmr_ret, g_pollinit_ret, g_dereg_ret, g_mapput_ret; m_mod_t *g_oldmod; ev_src_t *g_newsrc; struct _bst *g_set; bool g_key_present; int g_bstins_ret; int g_loopstart_ret, g_recvdrv_ret; uint8_t g_loopstop_ret;
 bool g_entry; ev_src_t *g_oldsub; int g_regcomp_ret;
 size_t g_LL[8], g_PL[9], g_v0;
+void *g_ppdata; char *g_namebuf; int *g_udbuf;
 struct _bst_itr *g_bit; size_t g_L0[8], g_PS[9], g_p0;
 struct _map_itr *g_mit; struct _map *g_tab; const char *g_topic; bool g_exact; size_t g_match_at, g_m0, g_el0, g_f0, g_h0, g_t0, g_fr0, g_r0, g_fc0;
 int g_open_fd;       /* the (single) descriptor of the focus object that is currently open and owned by the library, or -1 */
